@@ -88,12 +88,15 @@ func (self *TransparencyBinaryClientProtocol) Write(command protocol.ICommand) e
 		return errors.New("client not open")
 	}
 
-	err := self.clientProtocol.Write(command)
-	if err != nil {
-		return err
-	}
+	// the reply can be read by Process() before Write returns: the request is noted first
+	latestCommandType, latestRequestId := self.latestCommandType, self.latestRequestId
 	self.latestCommandType = command.GetCommandType()
 	self.latestRequestId = command.GetRequestId()
+	err := self.clientProtocol.Write(command)
+	if err != nil {
+		self.latestCommandType, self.latestRequestId = latestCommandType, latestRequestId
+		return err
+	}
 	return nil
 }
 
